@@ -184,6 +184,10 @@ def priority(ctx) -> None:
     ctx.check(mk is not None and core.src(mk.value) == f'self.Matcher({fvar}.sources)', 'C09.priority', m, 'a fresh matcher per feed, built from that feed\'s advertised sources', mk or lp, key='match:matcher')
     mvar = core.src(mk.targets[0]) if mk is not None else 'matcher'
     ctx.check(f'source.accept({mvar})' in body, 'C09.priority', m, 'the statement is walked by the matcher', lp, key='match:accept')
+    # every feed of the pool is put before the matcher: nothing leaves the round (continue / break / return) before the walk
+    acc_at = next((k for k, s_ in enumerate(lp.body) if core.src(s_) == f'source.accept({mvar})'), None)
+    early = [x for k, s_ in enumerate(lp.body) if acc_at is None or k < acc_at for x in ast.walk(s_) if isinstance(x, (ast.Continue, ast.Break, ast.Return))]
+    ctx.check(acc_at is not None and not early, 'C09.priority', m, 'no feed is passed over without asking the matcher (a count or any other shortcut cannot know what an advertised join or sub-query covers)', early[0] if early else lp, key='match:every-feed')
     rets = [r for r in ast.walk(lp) if isinstance(r, ast.Return)]
     okr = len(rets) == 1 and core.src(rets[0].value) == fvar and [core.src(t) for t, pol in cfg.guards(rets[0], m.node, siblings=False) if pol] == [mvar]
     ctx.check(okr, 'C09.priority', m, 'the first (highest-priority) accepting feed is returned', lp, key='match:first')
